@@ -18,8 +18,11 @@ RW = session_check.READ_ACTIONS + session_check.WRITE_ACTIONS
 # property -> tier -> list of steps (cfg name, formats, required actions, max_replay, simulate, depth)
 PLANS = {
     "C04": {
-        "quick": [("c04_quick", BOTH, session_check.READ_ACTIONS + ["ReaderFault"], None, None, None)],
+        "quick": [("c04_quick", BOTH, session_check.READ_ACTIONS + ["ReaderFault"], None, None, None),
+                  ("c04_single", ("delimited",), session_check.READ_ACTIONS, None, None, None)],
         "thorough": [("c04_quick", BOTH, session_check.READ_ACTIONS + ["ReaderFault"], None, None, None),
+                     ("c04_single", ("delimited",), session_check.READ_ACTIONS, None, None, None),
+                     ("c04_single_h1", ("delimited",), session_check.READ_ACTIONS, None, None, None),
                      ("c04_h0", BOTH, session_check.READ_ACTIONS, None, None, None),
                      ("c04_h2", BOTH, session_check.READ_ACTIONS, None, None, None),
                      ("c04_t4", BOTH + FIXED_VARIANTS, session_check.READ_ACTIONS, None, None, None)],
@@ -28,6 +31,7 @@ PLANS = {
         "quick": [("c05_ck1", BOTH, session_check.READ_ACTIONS, None, None, None),
                   ("c05_ck2", ("delimited",), session_check.READ_ACTIONS, None, None, None),
                   ("c05_ck3", ("delimited",), session_check.READ_ACTIONS, None, None, None),
+                  ("c05_ck4", ("delimited",), session_check.READ_ACTIONS, None, None, None),
                   ("c05_uu", ("delimited",), session_check.READ_ACTIONS, None, None, None)],
         "thorough": [("c05_ck%d" % n, BOTH, session_check.READ_ACTIONS, None, None, None) for n in range(1, 9)]
         + [("c05_ck%d_t5" % n, ("delimited",), session_check.READ_ACTIONS, None, None, None) for n in range(1, 9)]
